@@ -11,7 +11,10 @@ namespace Glb.Relay
 /-- the program the theorems are about: exactly what the extractor read from /repo -/
 def progNow : Prog :=
   ⟨[.logBeg, .deferEnd, .deferRecover, .callHandler], some 4, some 4, some 12, some (0, 200),
-    true, true, true, some 500, some 0, some (0, 200), true⟩
+    true, true, true, some 500, some 0, some (0, 200), true, some (0, 200)⟩
+
+/-- the pinned commit: `Flush` did not record the implicit 200 -/
+def progPinned : Prog := { progNow with flushImplicit := none }
 
 theorem prog_eq : prog = progNow := by decide
 
@@ -36,6 +39,14 @@ theorem runH_noHeader (es : List Ev) (rw : RW) (hn : noHeader es = true) (hs : r
         subst hw
         simp [RW.write, progNow, hs, originWrite, originWriteHeader]
       simp only [runH, hwr, panicOf]
+      exact ih rw (by simpa [noHeader] using hn) hs hw
+    | flush =>
+      have hfl : rw.flush progNow = rw := by
+        obtain ⟨st, w⟩ := rw
+        simp only at hs hw
+        subst hw
+        simp [RW.flush, progNow, hs, originWrite, originWriteHeader]
+      simp only [runH, hfl, panicOf]
       exact ih rw (by simpa [noHeader] using hn) hs hw
 
 /-- final writer state and panic of a "set once" behaviour -/
@@ -62,6 +73,12 @@ theorem runH_setOnce (beh : List Ev) (h1 : setOnce beh = true)
       simp only [runH, statusOf, panicOf]
       have : ({} : RW).write progNow = { status := 200, wire := some 200 } := by
         simp [RW.write, RW.writeHeader, progNow, originWriteHeader, originWrite]
+      rw [this]
+      exact runH_noHeader es _ (by simpa [setOnce] using h1) (by decide) rfl
+    | flush =>
+      simp only [runH, statusOf, panicOf]
+      have : ({} : RW).flush progNow = { status := 200, wire := some 200 } := by
+        simp [RW.flush, RW.writeHeader, progNow, originWriteHeader, originWrite]
       rw [this]
       exact runH_noHeader es _ (by simpa [setOnce] using h1) (by decide) rfl
 
@@ -107,6 +124,7 @@ theorem relay_eq (thr : Nat) (req : Req) (beh : List Ev) (h1 : setOnce beh = tru
       cases e with
       | writeHeader c' => simp [statusOf] at hc; subst hc; exact h0 _ (by simp)
       | write => simp [statusOf] at hc; omega
+      | flush => simp [statusOf] at hc; omega
       | ret => simp [statusOf] at hc
       | panic v => simp [statusOf] at hc
   have hb : progNow.body = [.logBeg, .deferEnd, .deferRecover, .callHandler] := rfl
